@@ -129,6 +129,9 @@ func lexExpr(s string) ([]tok, error) {
 				}
 				j++
 			}
+			if j >= len(s) {
+				return nil, fmt.Errorf("unterminated character literal at %q", s[i:])
+			}
 			ts = append(ts, tok{"char", s[i : j+1]})
 			i = j + 1
 		default:
